@@ -13,8 +13,9 @@ Small-step interleaving semantics at the granularity of the individual atomic op
 
 Assumptions (trusted base): the SeqCst atomics behave as atomic steps that interleave (sequential
 consistency); `Arc` is an atomic counter whose last decrement runs `Drop` of the content in the
-decrementing thread; the `dup` system call succeeds and returns a descriptor that is different from every
-descriptor that is open at that moment (modelled as a fresh id `dupd n`).
+decrementing thread; a `dup` system call that succeeds returns a descriptor that is different from every
+descriptor that is open at that moment (modelled as a fresh id `dupd n`); one that is refused (`Op.dupFail`: the
+program says which of its dups meet an exhausted descriptor table) creates nothing.
 -/
 namespace Rustbus.FdConc
 
@@ -24,6 +25,8 @@ namespace Rustbus.FdConc
     thread knows; its own atomics cannot be observed by anybody else, only its `close` system call can. -/
 inductive Op
   | take | get | dup | clone | drop
+  /-- a `dup` during which the `dup` system call is refused (EMFILE / ENFILE: no descriptor left) -/
+  | dupFail
   deriving Repr, DecidableEq
 
 /-- a descriptor as it appears in system calls: the number stored in the shared `inner` cell
@@ -41,6 +44,7 @@ inductive Res
   | getNone
   | dupOk (n : Nat)       -- `dup() = Ok(handle on the new descriptor dupd n)`
   | dupTaken              -- `dup() = Err(DupError::AlreadyTaken)`
+  | dupErr                -- `dup() = Err(DupError::Io(_))`: the system call was refused
   | cloned
   | dropped
   deriving Repr, DecidableEq
@@ -67,6 +71,8 @@ inductive Pc
   | dupLoad                             -- (hook FdLoad) in `get` called by `dup`
   | dupSys (v : Int)                    -- (hook FdDup v) the dup system call
   | dupClose (n : Nat)                  -- (hook FdClose) the duplicate is dropped again: close of `dupd n`
+  | dupLoadF                            -- (hook FdLoad) in `get` called by a `dup` whose system call will be refused
+  | dupSysF (v : Int)                   -- (hook FdDup v) the refused dup system call
   | dropDec                             -- a handle goes out of scope: Arc decrement
   | innerDrop (k : Res)                 -- (hook FdInnerDrop) the decrement was the last one
   | dropLoad (k : Res)                  -- (hook FdLoad) in `take` called by `Drop`
@@ -86,6 +92,7 @@ inductive Act
   | dcas (v : Int) (ok : Bool)          -- `inner.compare_exchange(v, -1)` in `Drop`
   | dupSys (v : Int) (n : Nat)          -- system call `dup(v)` returned the new descriptor `dupd n`
   | close (fd : Fd)                     -- system call `close(fd)`
+  | dupSysFail (v : Int)                -- system call `dup(v)` failed (EMFILE): no descriptor was created
   deriving Repr, DecidableEq
 
 /-- a successful compare_exchange of a `take_raw_fd` -/
@@ -146,6 +153,7 @@ def stepThread (sh : Shared) (th : Thread) : Option (Shared × Thread × List Ac
     | .take :: rest, h + 1 => some (sh, { th with prog := rest, handles := h, pc := .takeLoad }, [.begin .take])
     | .get :: rest, _ + 1 => some (sh, { th with prog := rest, pc := .getLoad }, [.begin .get])
     | .dup :: rest, _ + 1 => some (sh, { th with prog := rest, pc := .dupLoad }, [.begin .dup])
+    | .dupFail :: rest, _ + 1 => some (sh, { th with prog := rest, pc := .dupLoadF }, [.begin .dupFail])
     | .clone :: rest, h + 1 =>
       some ({ sh with strong := sh.strong + 1 },
             { th with prog := rest, handles := h + 2, results := th.results ++ [.cloned] }, [.begin .clone, .inc])
@@ -166,6 +174,10 @@ def stepThread (sh : Shared) (th : Thread) : Option (Shared × Thread × List Ac
   | .dupSys v =>
     some ({ sh with nextDup := sh.nextDup + 1 }, { th with pc := .dupClose sh.nextDup }, [.dupSys v sh.nextDup])
   | .dupClose n => some (sh, th.finish (.dupOk n), [.close (.dupd n)])
+  | .dupLoadF =>
+    if sh.inner = -1 then some (sh, th.finish .dupTaken, [.load sh.inner])
+    else some (sh, { th with pc := .dupSysF sh.inner }, [.load sh.inner])
+  | .dupSysF v => some (sh, th.finish .dupErr, [.dupSysFail v])
   | .dropDec => decrement sh th .dropped
   | .innerDrop k => some (sh, { th with pc := .dropLoad k }, [.innerDrop])
   | .dropLoad k =>
@@ -221,7 +233,7 @@ def Config.closesOf (c : Config) (orig : Int) : Nat := c.trace.countP (fun e => 
 
 /-- the log of system calls -/
 def Config.syslog (c : Config) : List (Nat × Act) :=
-  c.trace.filter (fun e => match e.2 with | .dupSys _ _ | .close _ => true | _ => false)
+  c.trace.filter (fun e => match e.2 with | .dupSys _ _ | .close _ | .dupSysFail _ => true | _ => false)
 
 /-! ### The schedules of the test harness
 
